@@ -35,6 +35,14 @@ def run(tier):
     behsk, exk = progs.drop_skipped(behsk, exk)
     check.cov["exhaustive_constant_expressions"] = len(behsk)
     behs, ex = behs + behsk, ex + exk
+    # + every pair / triple of operators (variables as atoms)
+    from . import c03
+    opset = [i for i in c03.exprset(table0) if i != "ScalarLnumber"]
+    tablep, behsp = syntax.generate(check, "5", rootcat="stmt", rootmax=1, depth=4, allowed=opset, exhaustive=True, maxchoices=7, timeout=2400)
+    exp_ = progs.expand_all(tablep, behsp, core.seed(), ["none"])
+    behsp, exp_ = progs.drop_skipped(behsp, exp_)
+    check.cov["exhaustive_operator_pairs"] = len(behsp)
+    behs, ex = behs + behsp, ex + exp_
     tasks, metas = [], []
     for i, (b, e) in enumerate(zip(behs, ex)):
         if not set(e["used"]) <= both:
